@@ -242,9 +242,51 @@ def build(family, p, given=None):
     return _build(family, p, given)
 
 
+_PRECISION = {"float32": "float32", "float": "float32", "single": "float32",
+              "torch.float32": "float32", "torch.float": "float32",
+              "float64": "float64", "double": "float64", "torch.float64": "float64",
+              "torch.double": "float64"}
+
+
+def _is_precision_kw(name):
+    n = name.lower()
+    return "dtype" in n or "precision" in n
+
+
 def _ctor(cls, p, **kw):
-    kw.update(fuzz_kwargs(cls, p.get("fuzz", 0)))
+    fz = fuzz_kwargs(cls, p.get("fuzz", 0))
+    if p.get("dtype_as"):
+        # "constructed in that precision": an explicit precision keyword that a
+        # change under test added asks for the precision being compared with
+        for k, v in fz.items():
+            if _is_precision_kw(k) and _PRECISION.get(str(v)):
+                fz[k] = p["dtype_as"]
+    kw.update(fz)
     return cls(**kw)
+
+
+def family_class(family):
+    L = env.lib()
+    pw = L.pw
+    return {"dwt1f": pw.DWT1DForward, "dwt1i": pw.DWT1DInverse, "dwt2f": pw.DWTForward,
+            "dwt2i": pw.DWTInverse, "swt": L.dwt_t2.SWTForward, "dtf": pw.DTCWTForward,
+            "dti": pw.DTCWTInverse, "dt2f": getattr(L.ll2, "DTCWTForward2", None),
+            "scat": pw.ScatLayer, "scat2": pw.ScatLayerj2}.get(family)
+
+
+def explicit_dtype(family, p):
+    """The precision an explicit constructor keyword asks for (a `dtype=` option
+    that a change under test added and the keyword fuzz exercises), else None:
+    the construction precision is then the keyword's, not the default dtype's."""
+    if not p.get("fuzz"):
+        return None
+    cls = family_class(family)
+    if cls is None:
+        return None
+    for k, v in fuzz_kwargs(cls, p["fuzz"]).items():
+        if _is_precision_kw(k) and _PRECISION.get(str(v)):
+            return _PRECISION[str(v)]
+    return None
 
 
 def _build(family, p, given=None):
